@@ -557,7 +557,7 @@ func runC17(x *X) {
 	// one long-lived TextTable whose decoration is changed between renders: it must refuse to render
 	// exactly while its current decoration name is unknown
 	ldepth := x.Pick(5, 6)
-	x.Explore("texttable-lifecycle", ExploreOpts{ShardDepth: 2, Bound: fmt.Sprintf("all sequences of <=%d operations {SetDecorationNamed(known a), SetDecorationNamed(known b), SetDecorationNamed(unknown), SetDecoration(custom), Register(unknown name), Render} on one TextTable", ldepth)}, func(c *Chooser) {
+	x.Explore("texttable-lifecycle", ExploreOpts{ShardDepth: 2, Bound: fmt.Sprintf("all sequences of <=%d operations {SetDecorationNamed(known a), SetDecorationNamed(known b), SetDecorationNamed(unknown), SetDecoration(custom), Register the unknown name / re-register it with another decoration, Render} on one TextTable", ldepth)}, func(c *Chooser) {
 		serial := nextSerial(x)
 		late, never := "late"+serial+"-full", "late"+serial
 		defer resetNames(late)
@@ -607,9 +607,14 @@ func runC17(x *X) {
 				tt.SetDecoration(customDecoration())
 				cur, curName = customDecoration(), "custom"
 			case 5:
-				c.Logf("decoration.RegisterDecorationName(%q, d1)   // does not change the table's current decoration", late)
-				decoration.RegisterDecorationName(late, decorFor(1))
-				lateRegistered, lateDecor = true, 1
+				// registers the name, or RE-registers it with the other of two decorations
+				next := 1
+				if lateRegistered && lateDecor == 1 {
+					next = 2
+				}
+				c.Logf("decoration.RegisterDecorationName(%q, d%d)   // does not change the table's current decoration", late, next)
+				decoration.RegisterDecorationName(late, decorFor(next))
+				lateRegistered, lateDecor = true, next
 			case 6:
 				c.Logf("tt.Render()   // current decoration: %s", curName)
 				out, err := tt.Render()
